@@ -74,8 +74,10 @@ pub struct RefSolution {
 pub enum RefStateEntry {
     /// must be exactly this f64 (given / fixed / nearest-to-zero values)
     Bits(f64, &'static str),
-    /// dependent value: exact rational; `certified` when the whole chain is exact in f64
-    Dependent(Q, bool),
+    /// dependent value: exact rational; `certified` when the whole chain is exact in f64; the last
+    /// field is the magnitude sum |c|*prod|x| of its function at the extended state (for uncertified
+    /// chains the comparison is relative to that magnitude, not to the possibly cancelled result)
+    Dependent(Q, bool, Q),
 }
 
 #[derive(Debug, Clone, PartialEq)]
@@ -129,7 +131,7 @@ fn ref_constraint(c: &v1::Constraint, x: &BTreeMap<u64, f64>, removed: Option<(S
 pub fn ref_dependencies(
     deps: &BTreeMap<u64, v1::Function>,
     x: &BTreeMap<u64, f64>,
-) -> Result<BTreeMap<u64, (Q, bool)>, RefReject> {
+) -> Result<BTreeMap<u64, (Q, bool, Q)>, RefReject> {
     let mut known: BTreeMap<u64, Q> = map_q(x);
     // f64 shadow used only for the exactness certificate
     let mut shadow: BTreeMap<u64, f64> = x.clone();
@@ -145,13 +147,15 @@ pub fn ref_dependencies(
             // a dependency may only use values that exist and are not themselves unresolved dependents
             if occ.iter().all(|i| known.contains_key(i) && !remaining.contains(i)) {
                 let v = canon_function(f).eval(&known).expect("ids known");
+                let absx: BTreeMap<u64, Q> = known.iter().map(|(k, v)| (*k, v.abs())).collect();
+                let mag = abs_stored_poly(f).eval(&absx).unwrap_or_else(Q::zero);
                 let cert = eval_is_exact(&stored_terms(f), &shadow) && occ.iter().all(|i| *certified_all.get(i).unwrap_or(&true));
                 let vf = q_to_f64(&v);
                 let cert = cert && f64_eq_q(vf, &v);
                 known.insert(id, v.clone());
                 shadow.insert(id, vf);
                 certified_all.insert(id, cert);
-                out.insert(id, (v, cert));
+                out.insert(id, (v, cert, mag));
                 remaining.remove(&id);
                 progressed = true;
             }
@@ -207,8 +211,8 @@ pub fn ref_solution(inst: &v1::Instance, x: &BTreeMap<u64, f64>) -> Result<RefSo
     }
     let deps: BTreeMap<u64, v1::Function> = inst.decision_variable_dependency.iter().map(|(k, f)| (*k, f.clone())).collect();
     let dep_values = ref_dependencies(&deps, &ext)?;
-    for (id, (v, cert)) in dep_values {
-        state.insert(id, RefStateEntry::Dependent(v, cert));
+    for (id, (v, cert, mag)) in dep_values {
+        state.insert(id, RefStateEntry::Dependent(v, cert, mag));
     }
     for v in &inst.decision_variables {
         if let std::collections::btree_map::Entry::Vacant(e) = state.entry(v.id) {
@@ -333,12 +337,13 @@ pub fn compare_solution(sol: &v1::Solution, r: &RefSolution, inst: &v1::Instance
                             out.push((format!("state-value:{why}"), format!("variable {id} reported {v:e}, expected {x:e} ({why})")));
                         }
                     }
-                    (Some(v), RefStateEntry::Dependent(x, cert)) => {
+                    (Some(v), RefStateEntry::Dependent(x, cert, mag)) => {
                         let ok = if *cert {
                             f64_eq_q(*v, x)
                         } else {
-                            // uncertified chains: loose relative comparison, counted separately by callers
-                            (q(*v) - x).abs() <= (x.abs() + q(1.0)) * q(1e-9)
+                            // uncertified chains: comparison relative to the magnitude of the terms (a result
+                            // that is small by cancellation still carries the rounding of its large terms)
+                            (q(*v) - x).abs() <= (mag + x.abs() + q(1.0)) * q(1e-9)
                         };
                         if !ok {
                             out.push(("state-value:dependent".into(), format!("dependent variable {id} reported {v:e}, exact {} ({:e})", x, q_to_f64(x))));
